@@ -460,8 +460,9 @@ Definition cmp (lattice : bool) (f : fl) (q : qv) (scale mn md : Z) : bool :=
 
 (* the implementation's sum_err e = E / 2^t against the model's variance V / D: e is the
    correctly rounded square root  [after coq/C02_Model.v sqrt_ok] ; non-lattice: e^2 within
-   2^-40 relative of V / D *)
-Definition sqrt_ok (lattice : bool) (e : fl) (v : val) (D : Z) : bool :=
+   2^-40 relative of V / D, plus [qv] / D (rigorous bound of the harness's rounding of the
+   weights to the 1 / WS grid, see [quant_slack]) *)
+Definition sqrt_ok (lattice : bool) (e : fl) (v : val) (D qv : Z) : bool :=
   match e, v with
   | None, None => true
   | Some (E, t), Some V =>
@@ -469,7 +470,7 @@ Definition sqrt_ok (lattice : bool) (e : fl) (v : val) (D : Z) : bool :=
       else if lattice then
         if E =? 0 then V =? 0
         else ((2 * E - 1) * (2 * E - 1) * D <=? 4 * 4 ^ t * V) && (4 * 4 ^ t * V <=? (2 * E + 1) * (2 * E + 1) * D)
-      else Z.abs (E * E * D - V * 4 ^ t) * 2 ^ 40 <=? 4 ^ t * (Z.abs V + 1)
+      else Z.abs (E * E * D - V * 4 ^ t) * 2 ^ 40 <=? 4 ^ t * (Z.abs V + 1 + 2 ^ 40 * qv)
   | _, _ => false
   end.
 
@@ -513,6 +514,26 @@ Definition mu_mag (f : fam) (m : moments6) : Z :=
   let ey := f_h f * Z.abs (m00 m) + Z.abs (m10 m) in
   (sa + 1) * (ex + ey + 1) * (ex + ey + 1).
 
+(* Non-dyadic sum-method weights (method 'exact' on curved apertures, subpixels not a power of two)
+   are handed to Coq ROUNDED to the grid 1 / WS (WS = 2^60), i.e. each scaled weight is off by at
+   most 1/2 (a sliver weight of 1e-13 keeps only ~17 significant bits).  The model's sum, variance sum
+   and area therefore differ from the exact-weight values by at most
+     sum_cells |data - bkg|,  sum_cells error^2,  number of cells      (scaled units, bound 1 per weight)
+   and the non-lattice comparisons allow exactly this much on top of the 2^-40 relative tolerance.
+   Lattice cases (exact weights) get no allowance. *)
+Definition quant_slack (sc : scene) (a : aper) (bkg : Z) : Z * Z * Z :=
+  match overlap_slices (a_box a) (s_ny sc) (s_nx sc) with
+  | None => (0, 0, 0)
+  | Some (large, small) =>
+      let cs := offs (slen (fst large)) (slen (snd large)) in
+      (zsum (map (fun jk => match data0_at sc bkg large jk with Some v => Z.abs v | None => 0 end) cs),
+       match s_err sc with
+       | None => 0
+       | Some e => zsum (map (fun jk => let ev := get2 0 e (fst (fst large) + fst jk) (fst (snd large) + snd jk) in ev * ev) cs)
+       end,
+       Z.of_nat (length cs))
+  end.
+
 Definition check_one (scl : scales) (sc : scene) (a : aper) (bkg : Z) (e : expected) : bool :=
   let r := apstats_one sc a bkg in
   let fc := fam_center sc a bkg in
@@ -520,11 +541,13 @@ Definition check_one (scl : scales) (sc : scene) (a : aper) (bkg : Z) (e : expec
   let lat := lattice_sum scl || s_center sc in
   let ds := DS scl in let ws := if s_center sc then 1 else WS scl in
   let vs := r_vs r in
-  let sabs := sum_abs (f_data fs) + 1 in
+  let '(qs, qv, qa) := quant_slack sc a bkg in
+  let sabs := sum_abs (f_data fs) + 1 + 2 ^ 40 * qs in
+  let amag := (f_h fs * f_w fs + 1) * ws + 2 ^ 40 * qa in      (* over the denominator ws *)
   (* ApertureStats outputs against the model *)
   cmp lat (e_sum e) (vq (r_sum r)) (ds * ws) sabs (ds * ws) &&
-  sqrt_ok lat (e_sum_err e) (r_sum_var r) (ES scl * ES scl * ws) &&
-  cmp lat (e_sum_area e) (vq (r_sum_area r)) ws (f_h fs * f_w fs + 1) 1 &&
+  sqrt_ok lat (e_sum_err e) (r_sum_var r) (ES scl * ES scl * ws) qv &&
+  cmp lat (e_sum_area e) (vq (r_sum_area r)) ws amag ws &&
   round_ok (e_center_area e) (vq (r_center_area r)) 1 &&
   round_ok (e_min e) (vq (v_min vs)) ds && round_ok (e_max e) (vq (v_max vs)) ds &&
   round_ok (e_mean e) (v_mean vs) ds && round_ok (e_median e) (v_median vs) ds &&
@@ -560,10 +583,10 @@ Definition check_one (scl : scales) (sc : scene) (a : aper) (bkg : Z) (e : expec
    cmp lat (e_phot_sum e) (vq ps) (ds * ws) sabs (ds * ws) &&
    (match s_err sc with
     | None => true
-    | Some _ => sqrt_ok lat (e_phot_err e) pv (ES scl * ES scl * ws)
+    | Some _ => sqrt_ok lat (e_phot_err e) pv (ES scl * ES scl * ws) qv
     end) &&
    cmp lat (e_area_overlap e) (vq (area_overlap_one_ref (a_box a) (a_Ws a) (s_ny sc) (s_nx sc) (e_photmask e)))
-       ws (f_h fs * f_w fs + 1) 1).
+       ws amag ws).
 
 Fixpoint forall3b {A B C} (f : A -> B -> C -> bool) (a : list A) (b : list B) (c : list C) : bool :=
   match a, b, c with
